@@ -37,10 +37,17 @@ Traffic after activation (all PDU kinds whose size nfcpy budgets itself), every 
         listens on, receive MIU / RW set on both ends (below, equal to and above the link MIU; the CONNECT / CC
         parameters are read off the air), then in both directions I PDUs of exactly the connection MIU, one octet
         more (must be refused locally with EMSGSIZE), small ones queued together (aggregation near the link MIU), DISC
-the link then idles for a dozen SYMM turns.  The helper threads are not participants of the net clock: they only block
-on nfcpy's own condition variables, the logical clock still advances on nfcpy's own sleeps / time-outs only.  The
-harness keeps the acceptor's accept() and the first I PDU apart (out-of-band event) and lets the connecting side send
-first, so the known accept()/I-after-CC races (C05/C06 findings) are not in the way.
+the link then idles for a dozen SYMM turns (at least four after the last planned PDU).  No sampling: every cell of
+both tiers carries all of it; the plan is a function of the option tuple (extras_for), stored in the witness.
+The helper threads (resolve, connect/accept + send/recv) are not participants of the net clock: they only block on
+nfcpy's own condition variables, the logical clock still advances on nfcpy's own sleeps / time-outs only.  Before a
+stack's sleep is handed to the net the stack thread waits in *real* time until every helper is parked again, so a
+helper reacts "at once" in logical time and the traffic needs the same link turns on a loaded machine.  The harness
+keeps the acceptor's accept() and the first I PDU apart (out-of-band event) and lets the connecting side send first,
+so the known accept() / I-after-CC races (C05/C06 findings) are not in the way.  Cells whose target announces an RWT
+shorter than nfcpy's own pacing lose the link early (counted, as before); their extra traffic is cut short too.
+Side observation (not a clause): while a request that does not fit waits, nfcpy pads an aggregate with empty SNL PDUs
+(counter snl_empty_inside_agf); they are within every limit.
 """
 import math
 import random
@@ -661,8 +668,9 @@ def run_cell(cell):
         return f is None or (f.f_code.co_name == "wait" and f.f_code.co_filename.endswith("threading.py"))
 
     def patient_sleep(seconds):
-        if cr.helpers and threading.current_thread() not in cr.helpers:
+        if cr.helpers and threading.current_thread() not in cr.helpers and cr.helpers_alive():
             t0 = None
+            _time.sleep(0.00005)        # a thread that has just been notified still looks parked: let it run first
             while True:
                 frames = sys._current_frames()
                 if all(blocked(th, frames) for th in cr.helpers if th.is_alive()):
@@ -725,8 +733,9 @@ def run_cell(cell):
         group = group_sizes(pax_peer["miu"] + rs.choice([-2, -1, 0, 1, 2]), min(max(lim["rw"], 1), 4), 5, top)
         if not group:
             group = [rs.choice([1, 2, 3, 5, 9]) for _ in range(min(max(lim["rw"], 1), 3))]
-        plan = ([(top + 1, 0), (top, 0)] + [(n, nfc.llcp.MSG_DONTWAIT) for n in group]
-                + [(max(1, top - rs.choice([1, 2, 3])), 0), (top, 0)])
+        plan = [(top + 1, 0), (top, 0)] + [(n, nfc.llcp.MSG_DONTWAIT) for n in group]
+        if top <= 300:
+            plan += [(max(1, top - rs.choice([1, 2, 3])), 0), (top, 0)]
         for idx, (n, flags) in enumerate(plan):
             data = ui_data(idx, n)
             try:
@@ -841,7 +850,7 @@ def run_cell(cell):
                 # (3) small PDUs queued at once whose aggregate would have MIU + delta octets of information
                 g = x["agf"][side]
                 cr.agf_group[side] = group_sizes(pax_peer["miu"] + g["delta"], g["n"], 4, pax_peer["miu"])
-                sizes = sizes + cr.agf_group[side] + [pax_peer["miu"]]
+                sizes = sizes + cr.agf_group[side]
             for idx, n in enumerate(sizes):
                 data = ui_data(idx, n)
                 try:
@@ -1189,8 +1198,8 @@ def do_cell(cell, R, record=True):
                 R.inconc("the link ended (or the poll bound was reached) before the planned SNL / data link connection "
                          "traffic was through, the target kept its RWT and no clause fired: %r dlc=%r"
                          % (cell, {sd: (st["role"], st["phase"], st["error"]) for sd, st in cr.dlc.items()}))
-                R.sample({"incomplete": cell, "dlc": cr.dlc, "batch": {k: {kk: vv for kk, vv in b.items() if kk != "names"}
-                                                                        for k, b in cr.batch.items()},
+                R.sample({"incomplete": cell, "dlc": cr.dlc,
+                          "batch": {k: {kk: vv for kk, vv in b.items() if kk != "names"} for k, b in cr.batch.items()},
                           "resolved": {sd: sorted(map(repr, cr.resolved[sd].values())) for sd in cr.resolved}})
     s = mon.final()
     if s is not None:
